@@ -201,6 +201,10 @@ class BlockNode(Node):
                     parent=stack_item.parent,
                 )
             },
+            # A block is rendered on behalf of the template it appears in. Tags
+            # that are not allowed there (`include` inside `render`, for example)
+            # are not allowed in the overriding block either.
+            disabled_tags=context.disabled_tags,
             carry_loop_iterations=True,
             block_scope=True,
         )
@@ -254,6 +258,10 @@ class BlockNode(Node):
                     parent=stack_item.parent,
                 )
             },
+            # A block is rendered on behalf of the template it appears in. Tags
+            # that are not allowed there (`include` inside `render`, for example)
+            # are not allowed in the overriding block either.
+            disabled_tags=context.disabled_tags,
             carry_loop_iterations=True,
             block_scope=True,
         )
